@@ -156,7 +156,28 @@ class FactBase:
             for b in self.by_path.values():
                 b.name = self._canon(b)
             cand = {b.path for b in self.by_path.values() if b.kind in ("fn", "assoc_fn") and b.name not in known and not b.raw.get("impl_trait") and not b.raw.get("in_trait")}
-            # a helper must not be (mutually) recursive
+            # a helper must not be (mutually) recursive: splicing it in would never end
+            def callees_of(pth):
+                out = set()
+                for blk in self.by_path[pth].raw["blocks"]:
+                    t = blk["term"]
+                    if t["k"] == "call" and "indirect" not in t["f"]:
+                        r = t["f"].get("resolved") or t["f"].get("def")
+                        if r in cand:
+                            out.add(r)
+                return out
+            edges = {c: callees_of(c) for c in cand}
+            def reaches_self(c):
+                seen, st = set(), list(edges[c])
+                while st:
+                    x = st.pop()
+                    if x == c:
+                        return True
+                    if x not in seen:
+                        seen.add(x)
+                        st.extend(edges.get(x, ()))
+                return False
+            cand = {c for c in cand if not reaches_self(c)}
             self.helpers = cand
             if cand:
                 raws = {p: self.by_path[p].raw for p in self.by_path}
